@@ -12,3 +12,4 @@ LEVEL_NOTE = "Trusts the pyvc encoding (cross-checked natively each run), z3/cvc
 TECHNIQUE = "contract-based deductive verification: VCs generated from the ast of the real functions, discharged by z3/cvc5"
 UNITS = [VIO.unit_validate_row()]
 UNITS += [VIO.unit_reader_rows(), ER.unit_location_copy_and_str()]
+UNITS += [VIO.unit_raw_rows().also("C04"), VIO.unit_c04_sweep()]
